@@ -131,6 +131,33 @@ def analyse(out, ops, regs, steps, where):
                     return
 
 
+def model_request(h):
+    return {"op": "registry.run", "ops": [o for o in h["ops"] if o["k"] != "roundtrip"]}
+
+
+def eval_history(h, res, m):
+    """One history (shared by run and replay_case): `res` is what the fresh interpreter answered (run_history), `m` the
+    model's answer (None = model not consulted).  Returns (correspondence, failures, crashed); correspondence is
+    None / "agree" / "unmodelled" / a disagreement dict."""
+    where = {"ops": h["ops"], "late_import": h["late_import"]}
+    if "crash" in res:
+        return None, [dict(where, what="history crashed the interpreter", kind="harness", got=res["crash"])], True
+    steps = res["steps"]
+    corr = None
+    if m is not None:
+        corr = "agree"
+        if has_unmodelled(m):
+            corr = "unmodelled"
+        elif m["steps"] != steps:
+            k = next((i for i, (a, b) in enumerate(zip(m["steps"], steps)) if a != b), min(len(m["steps"]), len(steps)))   # (or one is longer)
+            at = lambda xs: xs[k] if k < len(xs) else None  # noqa: E731
+            corr = {"op": "registry.run", "step": k, "operation": at(h["ops"]), "model": at(m["steps"]), "impl": at(steps),
+                    "history": h["ops"][:k + 1]}
+    judged = Outcome()
+    analyse(judged, h["ops"], None, steps, where)
+    return corr, judged.failures, False
+
+
 def run(ctx):
     out = Outcome()
     out.rule = ("histories of 1-3 registration calls (definitions extending built-ins or earlier extras, stand-alone, repeated, one faulty) interleaved with lookups before/after, "
@@ -143,27 +170,68 @@ def run(ctx):
         hists.append(({"ops": ops, "late_import": rng.random() < 0.4}, regs))
     with ThreadPoolExecutor(max_workers=14) as ex:
         results = list(ex.map(lambda h: run_history(h[0]), hists))
-    mo = ctx.driver.run([{"op": "registry.run", "ops": [o for o in h["ops"] if o["k"] != "roundtrip"]} for h, _ in hists])
+    mo = ctx.driver.run([model_request(h) for h, _ in hists])
     for (h, regs), res, m in zip(hists, results, mo):
         out.evaluations += 1
-        where = {"ops": h["ops"], "late_import": h["late_import"]}
-        if "crash" in res:
-            out.failures.append(dict(where, what="history crashed the interpreter", kind="harness", got=res["crash"]))
+        corr, failures, crashed = eval_history(h, res, m)
+        out.failures += failures
+        if crashed:
             continue
-        steps = res["steps"]
-        if has_unmodelled(m):
+        if corr == "unmodelled":
             out.unmodelled += 1
-        elif m["steps"] != steps:
-            k = next(i for i, (a, b) in enumerate(zip(m["steps"], steps)) if a != b)
-            out.disagreements.append({"op": "registry.run", "step": k, "operation": h["ops"][k], "model": m["steps"][k], "impl": steps[k],
-                                      "history": h["ops"][:k + 1]})
-        analyse(out, h["ops"], regs, steps, where)
+        elif isinstance(corr, dict):
+            out.disagreements.append(corr)
         if sum(1 for o in h["ops"] if o["k"] == "register") >= 2:
             out.nontrivial.add(json.dumps(h["ops"], sort_keys=True))
         out.distribution["registrations"] += sum(1 for o in h["ops"] if o["k"] == "register")
         if len(out.samples) < 2:
             out.sample({"ops": h["ops"][:6]})
     return out
+
+
+def _step_text(o, s):
+    if o["k"] == "register":
+        return "register %s -> %s" % ([(d["version"], d["annotation"], "extends %s" % d.get("extends")) for d in o["defs"]], "ok" if s.get("exc") is None and "exc" in s else s)
+    if o["k"] == "find":
+        return "find_scheme(%s, %s) -> %s" % (o.get("version"), o.get("annotation"),
+                                              "(%s, %s, %d columns)" % (s.get("version"), s["annotation"], len(s.get("names", []))) if s.get("annotation") else s)
+    if o["k"] == "header":
+        return "MafHeader.from_lines(%s, %s) -> %s" % (o["lines"], o.get("mode"), s)
+    return "%s -> %s" % (o["k"], s)
+
+
+def replay_case(ctx, failure):
+    """Re-evaluate the stored failing input on the current implementation; return the list of failure dicts it
+    produces now (empty list = the property holds on that input)."""
+    ops = failure.get("ops")
+    if not isinstance(ops, list) or not isinstance(failure.get("late_import"), bool) or not all(isinstance(o, dict) and "k" in o for o in ops):
+        return None
+    h = {"ops": ops, "late_import": failure["late_import"]}
+    print("executed: history of %d operation(s) (%d registration call(s)) in a fresh interpreter on %s, maflib.header imported %s the first registration" % (
+        len(ops), sum(1 for o in ops if o["k"] == "register"), common.REPO, "after" if h["late_import"] else "before"))
+    res = run_history(h)
+    m = None
+    if ctx.driver.available():
+        try:
+            m = ctx.driver.run([model_request(h)])[0]
+        except Exception as e:  # noqa
+            print("model: driver failed (%s)" % str(e)[:200])
+    corr, failures, crashed = eval_history(h, res, m)
+    if crashed:
+        print("implementation: the interpreter crashed: %s" % res["crash"][-300:])
+    else:
+        msteps = m["steps"] if (m is not None and corr != "unmodelled") else None
+        for n, (o, s) in enumerate(zip(ops, res["steps"])):
+            print("  step %d implementation: %s" % (n, _step_text(o, s)[:400]))
+            if msteps is not None and n < len(msteps) and msteps[n] != s:
+                print("  step %d model:          %s" % (n, _step_text(o, msteps[n])[:400]))
+        if m is not None:
+            print("model vs implementation: %s" % (corr if isinstance(corr, str) else "first difference at step %d" % corr["step"]))
+    for g in failures:
+        print("oracle: [%s] %s%s" % (g["kind"], g["what"], "; got %s" % (g["got"],) if "got" in g else ""))
+    if not failures:
+        print("oracle: satisfied (registered schemes resolve and validate, built-ins unchanged)")
+    return failures
 
 
 def search(ctx):
